@@ -176,7 +176,32 @@ def link_scenario(rng, rich):
     return ops
 
 
+def reappear_scenario(rng, rich):
+    """the OLD id comes back without the session that re-keyed the job having created it (cloned in from another
+    project): opening it by id must give the old state point, not what the re-keyed handle has now"""
+    sp = W.gen_sp(rng, rich)
+    while not sp:
+        sp = W.gen_sp(rng, rich)
+    e = rng.choice([x for x in edits_for(sp, rng, rich) if x[0] in ("spset", "spdel", "update", "spnest")] or [["spset", "h3", "zz", 1]])
+    e = list(e)
+    e[1] = "h3"
+    ops = [["open", "h1", 0, sp], ["init", "h1"], ["dset", "h1", "k", 1],
+           ["open", "hb", 1, copy.deepcopy(sp)], ["init", "hb"], ["dset", "hb", "src", 2]]
+    if rng.random() < 0.5:
+        ops.append(["session", 0])
+    ops.append(["openid", "h3", 0, W.ref_id(sp)] + (["lazy"] if rng.random() < 0.3 else []))
+    ops.append(e)
+    ops.append(["clone", "hb", 0, "hc"])
+    ops.append(["openid", "h5", 0, W.ref_id(sp)])
+    ops.append(["dset", "h5", "z", 3])
+    if rng.random() < 0.5:
+        ops.append(["spset", "h5", "yy", 0])
+    return ops
+
+
 def generate(tier, rng):
+    for i in range(40 if tier == "quick" else 400):
+        yield {"ops": reappear_scenario(rng, rich=(i % 3 == 0)), "nproj": 2, "views": True}
     n = 9000 if tier == "quick" else 40000
     for i in range(20 if tier == "quick" else 200):
         yield {"ops": link_scenario(rng, rich=(i % 3 == 0)), "nproj": 2, "views": True}
